@@ -7,20 +7,39 @@ From GV Require Import Base.Str Gen.RetryGen Model.Retry Proofs.Retry.
 Open Scope string_scope.
 Open Scope Q_scope.
 
-(* the entry that applies is the first one whose name list contains the method's selector *)
+(* first stage: the first entry that names the method exactly *)
 Theorem C09_selector_first_match : forall cfg service method mc,
-  lookup cfg service method = Some mc <->
-  exists pre post, cfg = (pre ++ mc :: post)%list /\
-                   In (mkName (Some service) (Some method)) (mc_names mc) /\
-                   (forall c, In c pre -> ~ In (mkName (Some service) (Some method)) (mc_names c)).
+  lookup_exact cfg service method = Some mc <->
+  exists pre post, cfg = (pre ++ mc :: post)%list /\ names_exactly service method mc /\
+                   (forall c, In c pre -> ~ names_exactly service method c).
 Proof. exact selector_first_match. Qed.
 Print Assumptions C09_selector_first_match.
 
+(* the entry that applies: an exact name anywhere beats every service-wide name; without one, the first entry naming
+   the whole service (the service alone, or with an empty method) *)
+Theorem C09_selector_exact_then_service : forall cfg service method mc,
+  lookup cfg service method = Some mc <->
+  (exists pre post, cfg = (pre ++ mc :: post)%list /\ names_exactly service method mc /\
+                    (forall c, In c pre -> ~ names_exactly service method c))
+  \/
+  ((forall c, In c cfg -> ~ names_exactly service method c) /\
+   exists pre post, cfg = (pre ++ mc :: post)%list /\ names_whole_service service mc /\
+                    (forall c, In c pre -> ~ names_whole_service service c)).
+Proof. exact selector_exact_then_service. Qed.
+Print Assumptions C09_selector_exact_then_service.
+
 Theorem C09_lookup_none : forall cfg service method,
   lookup cfg service method = None <->
-  (forall c, In c cfg -> ~ In (mkName (Some service) (Some method)) (mc_names c)).
+  (forall c, In c cfg -> ~ names_exactly service method c /\ ~ names_whole_service service c).
 Proof. exact lookup_none. Qed.
 Print Assumptions C09_lookup_none.
+
+Theorem C09_service_wide_entry_applies : forall cfg service method mc,
+  (forall c, In c cfg -> ~ names_exactly service method c) ->
+  In mc cfg -> names_whole_service service mc ->
+  exists mc', lookup cfg service method = Some mc' /\ names_whole_service service mc'.
+Proof. exact service_wide_entry_applies. Qed.
+Print Assumptions C09_service_wide_entry_applies.
 
 (* duration strings are converted exactly:  ip.fp followed by the unit letter  is  ip + fp / 10^|fp| *)
 Theorem C09_to_float_exact : forall ip fp,
@@ -122,7 +141,7 @@ Proof. exact call_deadline. Qed.
 Print Assumptions C09_call_deadline.
 
 Theorem C09_unnamed_method_single_attempt_no_deadline : forall (jitter : nat -> Q -> Q) cfg service method rep script,
-  (forall c, In c cfg -> ~ In (mkName (Some service) (Some method)) (mc_names c)) ->
+  (forall c, In c cfg -> ~ names_exactly service method c /\ ~ names_whole_service service c) ->
   emit cfg service method = GenOk (mkE None None) /\
   let tr := call jitter (mkE None None) UseDefault UseDefault (rep :: script) in
   t_attempts tr = 1%nat /\ t_timeouts tr = [None] /\ t_sleeps tr = [] /\
@@ -141,12 +160,7 @@ Theorem C09_explicit_overrides_default : forall (jitter : nat -> Q -> Q) row row
 Proof. exact explicit_overrides_default. Qed.
 Print Assumptions C09_explicit_overrides_default.
 
-(* the code as it is (both replayed on the implementation by the check) *)
-Theorem C09_service_wide_entry_not_matched : forall cfg service method,
-  (forall c n, In c cfg -> In n (mc_names c) -> n_method n = None) -> lookup cfg service method = None.
-Proof. exact service_wide_entry_not_matched. Qed.
-Print Assumptions C09_service_wide_entry_not_matched.
-
+(* the code as it is *)
 Theorem C09_ok_code_catches_everything :
   exists k, class_of_code "OK" = Some k /\ forallb (fun c => class_accepts k c) ERR_CODES = true.
 Proof. exact ok_code_catches_everything. Qed.
@@ -171,7 +185,7 @@ Example C09_hypotheses_hold :
     GenOk (mkE (Some (mkER (Some (5 # 10)) (Some (1250 # 1000)) (Some (13 # 10)) ["DeadlineExceeded"; "ServiceUnavailable"] (Some (60 # 1))))
                (Some (60 # 1)))
   /\ emit ex_cfg "p.v1.Alpha" "Other" = GenOk (mkE None None)
-  /\ emit ex_cfg "p.v1.Beta" "Anything" = GenOk (mkE None None)
+  /\ emit ex_cfg "p.v1.Beta" "Anything" = GenOk (mkE None (Some (9 # 1)))
   /\ Forall (fun c => In c ERR_CODES) ["UNAVAILABLE"; "DEADLINE_EXCEEDED"]
   /\ 0 <= r_initial ex_params /\ 0 <= r_maximum ex_params /\ 1 <= r_multiplier ex_params
   /\ Forall (fun c => accepts (r_classes ex_params) c = true) ["UNAVAILABLE"; "DEADLINE_EXCEEDED"; "UNAVAILABLE"]
